@@ -1,6 +1,7 @@
 package main
 
 import (
+	"bytes"
 	"fmt"
 	"strings"
 	"unicode/utf8"
@@ -51,7 +52,7 @@ func widen(b []byte) []int32 {
 }
 
 func checkC17(c *Ctx) {
-	c.rule = "byte strings = characters of width 2/3/4 straddling every 4096-byte block boundary at every split offset, boundary sizes, BOM variants, legitimate U+FFFD, every single-byte corruption (overwrite 0x80/0xC0/0xF8/0xFF, delete, truncate) of small valid programs, overlong/surrogate encodings, GBK text; each through FileStream.ReadAll, ByteStream.ReadAll, chunked Read(n) for n in 1..17 and random n, FileStream.ReadAll over a named pipe whose writer pauses at chosen offsets (after the BOM, inside characters), and end-to-end LoadFile+Execute of marker programs, among them valid files with 22 unusual characters (U+0000, controls, U+2028, U+FEFF, noncharacters, …) in a literal / a comment / between statements / at a line start / at the end: rejected as a whole or run completely. Oracle: unicode/utf8 (Valid + []rune). distinct_nontrivial = distinct (case family, validity, reader mode) x byte-level shape hashes with at least one multi-byte character or corruption"
+	c.rule = "byte strings = characters of width 2/3/4 straddling every 4096-byte block boundary at every split offset, boundary sizes, BOM variants, legitimate U+FFFD, every single-byte corruption (overwrite 0x80/0xC0/0xF8/0xFF, delete, truncate) of small valid programs, overlong/surrogate encodings, GBK text; each through FileStream.ReadAll, ByteStream.ReadAll, chunked Read(n) for n in 1..17 and random n, FileStream.ReadAll over a named pipe whose writer pauses at chosen offsets (after the BOM, inside characters), the same marker programs as the SourceCode field of a playground request (raw body bytes), and end-to-end LoadFile+Execute of marker programs, among them valid files with 22 unusual characters (U+0000, controls, U+2028, U+FEFF, noncharacters, …) in a literal / a comment / between statements / at a line start / at the end: rejected as a whole or run completely. Oracle: unicode/utf8 (Valid + []rune). distinct_nontrivial = distinct (case family, validity, reader mode) x byte-level shape hashes with at least one multi-byte character or corruption"
 	c.assumptions = []string{"Go's unicode/utf8 is the reference decoder", "a leading BOM is judged only for FileStream (source files); ByteStream may keep or drop it"}
 	rng := c.Rand("c17")
 	cases := []c17Case{}
@@ -340,6 +341,60 @@ func checkC17(c *Ctx) {
 			c.Violation(key, fmt.Sprintf("file %s is not valid UTF-8 but was executed: outcome %s, %d of %d markers displayed", e.name, resp.Kind, shown, e.markers), rp)
 		} else if resp.Err.Class == "runtime" {
 			c.Violation(key, fmt.Sprintf("file %s is not valid UTF-8 but reached the evaluator: %s", e.name, resp.Err.Msg), rp)
+		}
+	})
+	// the other way a source reaches the interpreter: the SourceCode field of a playground request.
+	// A body whose bytes are not valid UTF-8 must not be executed as a silently altered program.
+	jsonEsc := func(b []byte) []byte {
+		out := []byte{}
+		for _, ch := range b {
+			switch ch {
+			case '\\':
+				out = append(out, '\\', '\\')
+			case '"':
+				out = append(out, '\\', '"')
+			case '\n':
+				out = append(out, '\\', 'n')
+			case '\r':
+				out = append(out, '\\', 'r')
+			case '\t':
+				out = append(out, '\\', 't')
+			default:
+				out = append(out, ch)
+			}
+		}
+		return out
+	}
+	pgs := []e2e{}
+	for _, e := range e2es {
+		if _, sp := special[e.name]; sp || e.markers > 40 {
+			continue
+		}
+		pgs = append(pgs, e)
+	}
+	preqs := make([]Req, len(pgs))
+	for i, e := range pgs {
+		body := append([]byte(`{"VarInput":"","SourceCode":"`), jsonEsc(bytes.TrimPrefix(e.data, []byte("\xEF\xBB\xBF")))...)
+		body = append(body, []byte(`"}`)...)
+		preqs[i] = Req{Op: "pg", Data: widen(body), EvalBudget: 100000}
+	}
+	c.runBatches(preqs, 8, func(i int, req *Req, resp *Resp) {
+		c.Eval()
+		e := pgs[i]
+		valid := utf8.Valid(e.data)
+		c.Nontrivial("playground|" + e.name)
+		shown := strings.Count(resp.Display, "M")
+		key := "playground:" + e.name
+		rp := map[string]interface{}{"req": req, "case": e.name}
+		if resp.Kind != "value" {
+			c.Violation(key, fmt.Sprintf("playground request %s: %s %s", e.name, resp.Kind, clip(resp.Panic, 300)), rp)
+			return
+		}
+		if valid && shown != e.markers {
+			c.Violation(key, fmt.Sprintf("playground request with the valid program %s: %d of %d marker lines displayed (status %v)", e.name, shown, e.markers, resp.Ints), rp)
+		}
+		if !valid && shown != 0 {
+			c.Violation(key, fmt.Sprintf("playground request whose SourceCode (%s) is not valid UTF-8 was executed: %d of %d marker lines displayed, status %v, response %q", e.name, shown, e.markers, resp.Ints, clip(resp.Val.String(), 120)), rp)
 		}
 	})
 	c.Sample(map[string]interface{}{"case": cases[0].name, "bytes": len(cases[0].data), "modes": "file, byte, fileN(n), byteN(n)"})
